@@ -342,6 +342,7 @@ class Fixture:  # pylint: disable=too-many-instance-attributes
         self.variant = target.get("variant")
         self.uid = None  # the entity (or owner of the type / property group)
         self.aux = {}  # named auxiliary uids usable by the domains
+        self.kwargs = {}  # values given to the constructor (a domain can be derived from them when the getter shows None)
 
     # ------------------------------------------------------------------ build
     def build(self, ws):  # pylint: disable=too-many-branches,too-many-statements
@@ -387,6 +388,7 @@ class Fixture:  # pylint: disable=too-many-instance-attributes
                 img = np.arange(4 * 5 * 3, dtype="uint8").reshape(4, 5, 3)
                 ent = cls.create(ws, image=img, name="img")
             else:
+                self.kwargs = _object_kwargs(name)
                 ent = cls.create(ws, name="fixture", **_object_kwargs(name))
                 if name == "Octree":
                     _ = ent.octree_cells
@@ -823,6 +825,11 @@ def domain(fx: Fixture, ent, attr, cur):  # pylint: disable=too-many-return-stat
         if canon(cur) == ("ref", str(fx.uid)):
             raise Skip(f"{attr} of this class is the object itself")
         return [Ref(fx.aux[f"{key}1"]), Ref(cur.uid)], Ref(cur.uid)
+    if cur is None and attr in fx.kwargs and fx.kwargs[attr] is not None:
+        # the value given at creation does not show: still exercise the attribute from values of that type
+        given = fx.kwargs[attr]
+        given = np.asarray(given, dtype=float) if isinstance(given, list) else given
+        return _generic(given), base
     if cur is None:
         raise Skip("current value is None and no override gives a domain")
     if _is_entity(cur):
